@@ -99,9 +99,15 @@ func (s *Store[H]) deleteSequential(
 	log.Debugw("starting delete range sequential", "from_height", from, "to_height", to)
 
 	ctx, done := s.withWriteBatch(ctx)
+	// headers that only sat in the pending batch are removed from it at once, not with the write batch
+	var unflushed []H
 	defer func() {
 		if derr := done(); derr != nil {
 			err = errors.Join(err, fmt.Errorf("committing batch: %w", derr))
+			// nothing of the batch is known to be deleted: put back what was only pending
+			// and report no progress, so the pointers stay
+			s.pending.Append(unflushed...)
+			highest = from
 		}
 	}()
 	ctx, doneTx := s.withReadTransaction(ctx)
@@ -112,6 +118,9 @@ func (s *Store[H]) deleteSequential(
 	s.onDeleteMu.Unlock()
 
 	for height := from; height < to; height++ {
+		if h := s.pending.GetByHeight(height); !h.IsZero() {
+			unflushed = append(unflushed, h)
+		}
 		err := s.deleteSingle(ctx, height, onDelete)
 		if errors.Is(err, errHeaderMissing) {
 			missing++
@@ -167,15 +176,29 @@ func (s *Store[H]) deleteParallel(ctx context.Context, from, to uint64) (uint64,
 		}()
 
 		workerCtx, done := s.withWriteBatch(ctx)
+		// the lowest height this worker was given (they come in ascending order), and the headers it
+		// removed that only sat in the pending batch: those are removed at once, not with the write batch
+		first := to
+		var unflushed []H
 		defer func() {
 			if err := done(); err != nil {
 				last.err = errors.Join(last.err, fmt.Errorf("committing delete batch: %w", err))
+				// nothing of the batch is known to be deleted: put back what was only pending
+				// and report the failure at the first height of the batch
+				s.pending.Append(unflushed...)
+				last.height = first
 			}
 		}()
 		workerCtx, doneTx := s.withReadTransaction(workerCtx)
 		defer doneTx()
 
 		for height := range jobCh {
+			if first > height {
+				first = height
+			}
+			if h := s.pending.GetByHeight(height); !h.IsZero() {
+				unflushed = append(unflushed, h)
+			}
 			last.height = height
 			last.err = s.deleteSingle(workerCtx, height, onDelete)
 			if errors.Is(last.err, errHeaderMissing) {
